@@ -700,7 +700,8 @@ func refineOn(c Case, r Route, limits map[string]int64, rng *rand.Rand, base *om
 		}
 		out = append(out, cc)
 	case "notJSON":
-		garbage := []string{"this is not json", `{"index_name": "ix"`, `{'index_name': 'ix'}`, "\x00\xff\xfe\x01", `{"index_name":"ix",}`, `<xml/>`, `{"a":}`, "{", "\""}
+		garbage := []string{"this is not json", `{"index_name": "ix"`, `{'index_name': 'ix'}`, "\x00\xff\xfe\x01", `{"index_name":"ix",}`, `<xml/>`, `{"a":}`, "{", "\"",
+			"", " \n\t "} // zero bytes / white space only: not a JSON value either (decoders report EOF, which must not be read as "no request")
 		if len(vb) > 3 {
 			cut := 1 + rng.Intn(len(vb)-2)
 			garbage = append(garbage, vb[:cut])
